@@ -145,6 +145,23 @@ Fixpoint user_ram_org_ok (ranges : list mapping) (ns : list tnode) : bool :=
       end && user_ram_org_ok ranges rest
   end.
 
+(** Run addresses in RAM: behind an ordinary node (kind 0: not [*=], not [@=], not [.include_ips]) whose run
+    address lies in RAM, the next node runs at that address plus the number of bytes the node emitted ("following
+    code is ... assembled to run elsewhere": statement after statement).  [isram] is [is_ram high] under a
+    built-in mapping and [user_is_ram ranges] under a bus the program declares.  Sound for the model:
+    Proofs/UserRamRun.v. *)
+Fixpoint ram_runs_ok (isram : Z -> bool) (ns : list tnode) : bool :=
+  match ns with
+  | [] => true
+  | n :: rest =>
+      match rest with
+      | m :: _ =>
+          negb (tn_kind n =? 0) || negb (isram (tn_addr n)) ||
+          (tn_addr m =? tn_addr n + Z.of_nat (length (tn_bytes n)))
+      | [] => true
+      end && ram_runs_ok isram rest
+  end.
+
 (** ** What a case asks the oracle to check *)
 Inductive spec :=
 | SNone
@@ -200,7 +217,10 @@ Fixpoint spec_ok (s : spec) (impl : obs asmobs) : bool :=
   match s with
   | SAnd a b => spec_ok a impl && spec_ok b impl
   | SUserOffsets ranges ns =>
-      match impl with OOk _ => user_offsets_ok ranges ns false && user_ram_org_ok ranges ns | _ => true end
+      match impl with
+      | OOk _ => user_offsets_ok ranges ns false && user_ram_org_ok ranges ns && ram_runs_ok (user_is_ram ranges) ns
+      | _ => true
+      end
   | SAccept => match impl with OOk _ => true | _ => false end
   | SLabelValues events =>
       match impl with
@@ -275,6 +295,7 @@ Fixpoint spec_ok (s : spec) (impl : obs asmobs) : bool :=
       | OOk (blocks, _) =>
           list_eqb wblock_eqb (cut_spec ns end_pc [] 0) blocks
           && (user_map || offsets_ok high ns false) && pcs_ok ns end_pc && (user_map || ram_org_ok high ns)
+          && (user_map || ram_runs_ok (is_ram high) ns)
       | _ => true
       end
   | SBlocksI high user_map ns end_pc expected =>
@@ -282,6 +303,7 @@ Fixpoint spec_ok (s : spec) (impl : obs asmobs) : bool :=
       | OOk (blocks, _) =>
           list_eqb wblock_eqb (cut_spec ns end_pc [] 0) blocks
           && (user_map || offsets_ok high ns false) && pcs_ok ns end_pc && (user_map || ram_org_ok high ns)
+          && (user_map || ram_runs_ok (is_ram high) ns)
           && list_eqb wblock_eqb (flat_map tn_ips ns) expected
       | _ => true
       end
